@@ -97,9 +97,9 @@ let model_stream w p ts_events =
   (* one-watcher world: p events are consumed by the loop before Watch, the replay snapshot is taken when ts_events writes exist *)
   let n = List.length cur.events in
   let writes a b = List.filteri (fun i _ -> i >= a && i < b) cur.events |> List.map (fun (k, _) -> SWrite (keycode k)) in
-  (* v3 transactions: one event loop per target log; the streams of two logs interleave freely, so each log is
-     validated on its own (writes to the other log are left out of the model run, which renumbers the versions) *)
-  let writes a b = if cur.kind = "tx3" then List.filter (function SWrite k -> !in_scope (if int_of_n k = 9 then "kw" else "k" ^ string_of_int (int_of_n k)) | _ -> true) (writes a b) else writes a b in
+  (* the stream is validated per ORDERED SOURCE (see check_watcher): writes outside the source in scope are left out of the
+     model run, which renumbers the versions *)
+  let writes a b = if true then List.filter (function SWrite k -> !in_scope (if int_of_n k = 9 then "kw" else "k" ^ string_of_int (int_of_n k)) | _ -> true) (writes a b) else writes a b in
   let takes c = List.init c (fun _ -> STake) in
   let filt = match w.wkey with Some k -> Some (keycode k) | None -> None in
   let ls = writes 0 w.wreg @ takes p @ [ SOpen (n_of_int 1, filt, w.wreplay) ] @ writes w.wreg ts_events @ [ SSnap (n_of_int 1) ] @ writes ts_events n in
@@ -129,7 +129,23 @@ let check_watcher id w evs dump =
         end) dump;
     List.iter (fun (_, k, _) -> match w.wkey with Some x when x <> k -> specviol id "c15_watch_foreign_record" (Printf.sprintf "watcher %d for %s was shown %s" w.wid x k) | _ -> ()) evs;
     (* correspondence with Watch.v: some admissible schedule (events still queued at Watch time, time of the replay snapshot) explains the stream *)
-    let logs = if cur.kind = "tx3" then [ (fun k -> k = "k0" || k = "k1"); (fun k -> not (k = "k0" || k = "k1")) ] else [ (fun _ -> true) ] in
+    (* Which events reach a watcher in a fixed relative order?  Those of one Atomix event stream of one partition:
+       - v2 transactions: one indexed map = one partition: the whole stream is ordered;
+       - v3 transactions: one indexed map (and one event loop) per target: ordered per target log;
+       - proposals, v2/v3 configurations: a plain Atomix map is spread over the partitions of the cluster and its Events
+         stream is the merge of one stream per partition (rsm client map/v1 Events: one goroutine per partition): only the
+         events of ONE record (one key = one partition) keep their order; records of different partitions interleave freely.
+       Watch.v's single totally ordered event stream is therefore validated on the projection onto each ordered source.
+       What holds across sources and is checked on the whole stream: the replayed events precede every live event. *)
+    let logs = (match cur.kind with
+        | "tx2" -> [ (fun _ -> true) ]
+        | "tx3" -> [ (fun k -> k = "k0" || k = "k1"); (fun k -> not (k = "k0" || k = "k1")) ]
+        | _ -> List.map (fun key -> (fun k -> k = key)) keys) in
+    let logs = (match w.wkey with Some key -> List.filter (fun sc -> sc key) logs | None -> logs) in
+    (let rec live_seen seen = function
+        | [] -> ()
+        | ("R", k, _) :: r -> if seen then mismatch id (Printf.sprintf "%s watcher %d: replayed event for %s after a live event" cur.kind w.wid k); live_seen seen r
+        | _ :: r -> live_seen true r in live_seen false evs);
     let found = ref true in
     let ord k v = let rec f i = function [] -> -1 | (k', x) :: r -> if not (!in_scope k') then f i r else if x = v && k' = k then i else f (i + 1) r in f 1 cur.events in
     List.iter (fun scope ->
